@@ -345,11 +345,73 @@ Section Table.
 End Table.
 
 (* ================================================================== *)
-(* 7. the checker of the preconditions *)
+(* 7. the cover precondition from the table alone: motifs pairwise share at most one vertex *)
+Lemma net_okb_edges : forall nt, net_okb nt = true ->
+    forall i j id, In (i, j, id) (n_sweep nt) ->
+      In (i, j) (m_edges (find_motif nt id)) \/ In (j, i) (m_edges (find_motif nt id)).
+Proof.
+  intros nt H i j id Hin. unfold net_okb in H.
+  apply andb_true_iff in H. destruct H as [H _].
+  apply andb_true_iff in H. destruct H as [_ H].
+  rewrite forallb_forall in H. specialize (H _ Hin). cbn beta iota in H.
+  apply orb_true_iff in H. destruct H as [H|H]; apply edge_mem_In in H; tauto.
+Qed.
+
+Lemma share_le1b_spec : forall a b v w, share_le1b a b = true ->
+    In v a -> In w a -> memb v b = true -> memb w b = true -> v = w.
+Proof.
+  intros a b v w H Hv Hw Mv Mw. unfold share_le1b in H. rewrite forallb_forall in H.
+  specialize (H v Hv). rewrite forallb_forall in H. specialize (H w Hw).
+  rewrite Mv, Mw in H. cbn in H. rewrite orb_false_r in H. apply Nat.eqb_eq, H.
+Qed.
+
+Theorem cover_from_pairwise : forall nt, net_okb nt = true -> pairwise_okb nt = true -> cover_okb nt = true.
+Proof.
+  intros nt Hn Hp. destruct (net_okb_table_parts nt Hn) as [Hs Hm].
+  destruct (net_okb_parts nt Hn) as [_ Hwf].
+  unfold cover_okb. apply forallb_forall. intros [[i j] id] Hin. apply forallb_forall. intros v Hv.
+  unfold cover_ok_atb. apply forallb_forall. intros [l id'] Hl. cbn [fst snd].
+  destruct (find_motif_in nt id v Hv) as [HM Hid].
+  apply nbrs_lab_iff in Hl.
+  (* both end points are vertices of the motif labelling the edge, and they are distinct *)
+  assert (Hvl : In v (g_nodes (motif_graph (find_motif nt id'))) /\ In l (g_nodes (motif_graph (find_motif nt id')))
+                /\ v <> l).
+  { unfold sweep_okb in Hs. rewrite forallb_forall in Hs.
+    destruct (wf_graph_parts _ (find_motif_wf nt id' Hwf)) as [_ [_ [_ Hloop]]].
+    destruct Hl as [Hl|Hl]; pose proof (Hs _ Hl) as Hs'; cbn beta iota in Hs';
+      apply andb_true_iff in Hs'; destruct Hs' as [H1 H2]; apply memb_In in H1, H2;
+      (split; [assumption|split; [assumption|]]);
+      destruct (net_okb_edges nt Hn _ _ _ Hl) as [He|He]; specialize (Hloop _ He); cbn [fst snd] in Hloop;
+      congruence. }
+  destruct Hvl as [Hv' [Hl' Hne]].
+  destruct (Nat.eqb id' id) eqn:E.
+  - apply Nat.eqb_eq in E. subst id'.
+    rewrite (same_setb_memb _ _ (Hm _ HM)). apply memb_In in Hl'. rewrite Hl'. reflexivity.
+  - destruct (memb l (m_verts (find_motif nt id))) eqn:Ml; [exfalso|reflexivity].
+    destruct (find_motif_in nt id' v Hv') as [HM' Hid'].
+    unfold pairwise_okb in Hp. rewrite forallb_forall in Hp. specialize (Hp _ HM).
+    rewrite forallb_forall in Hp. specialize (Hp _ HM'). rewrite Hid, Hid', Nat.eqb_sym, E in Hp.
+    cbn [orb] in Hp.
+    apply Hne. apply (share_le1b_spec _ _ v l Hp).
+    + apply memb_In. rewrite (same_setb_memb _ _ (Hm _ HM)). apply memb_In, Hv.
+    + apply memb_In, Ml.
+    + rewrite (same_setb_memb _ _ (Hm _ HM')). apply memb_In, Hv'.
+    + rewrite (same_setb_memb _ _ (Hm _ HM')). apply memb_In, Hl'.
+Qed.
+
+(* end to end with preconditions that speak about the motif table and the presence of its edges only *)
+Theorem object_is_table_pairwise : forall nt,
+    net_okb nt = true -> table_okb nt = true -> pairwise_okb nt = true ->
+    forall T phis, Forall2 Qeq (mp_object nt T phis) (map (mp_table nt T) phis).
+Proof. intros nt Hn Ht Hp. apply object_is_table; [exact Hn|apply cover_from_pairwise; assumption|exact Ht]. Qed.
+
+(* ================================================================== *)
+(* 8. the checker of the preconditions *)
 Lemma c17_check_table_spec : forall t, c17_check_table t = of_bool true ->
-    table_okb (t_net t) = true /\ cover_okb (t_net t) = true /\ net_okb (t_net t) = true.
+    table_okb (t_net t) = true /\ cover_okb (t_net t) = true /\ net_okb (t_net t) = true
+    /\ pairwise_okb (t_net t) = true.
 Proof.
   intros t H. unfold c17_check_table in H.
-  destruct (table_okb (t_net t)), (cover_okb (t_net t)), (net_okb (t_net t)); cbn in H;
+  destruct (table_okb (t_net t)), (cover_okb (t_net t)), (net_okb (t_net t)), (pairwise_okb (t_net t)); cbn in H;
     try discriminate H; repeat split.
 Qed.
